@@ -12,7 +12,7 @@ FAIL_PATTERNS = [
     "invariant not satisfied", "possible arithmetic underflow/overflow", "possible division by zero",
     "decreases not satisfied", "possible bit shift underflow/overflow", "index out of bounds",
     "recommendation not met", "might not be allowed", "unable to prove", "loop invariant",
-    "assertion failure", "possible", "not satisfied", "cannot show",
+    "assertion failure", "possible", "not satisfied", "cannot show", "simplifies to false",
 ]
 UNDECIDED_PATTERNS = ["rlimit", "resource limit", "timed out", "timeout", "could not finish", "canceled", "incomplete"]
 
